@@ -177,7 +177,10 @@ def ctor_cases():
     iso = st.one_of(st.builds(lambda d: d.replace(microsecond=0).isoformat(), dts), edge,
                     st.builds(lambda d, z: d.replace(microsecond=0, minute=0 if z & 1 else d.minute,
                                                      second=0 if z & 2 else d.second).isoformat(), dts, st.integers(0, 3)))
-    return st.builds(lambda i, k: {'form': 'ctor', 'kind': k, 'value': i}, iso, st.sampled_from(['date', 'datetime', 'time']))
+    hms = st.tuples(st.integers(0, 23), st.integers(0, 59), st.integers(0, 59)).map(list)
+    loops = st.builds(lambda vs, poke: {'form': 'ctor', 'kind': 'time-loop', 'values': vs, 'poke': poke}, st.lists(hms, min_size=2, max_size=5), st.booleans())
+    single = st.builds(lambda i, k: {'form': 'ctor', 'kind': k, 'value': i}, iso, st.sampled_from(['date', 'datetime', 'time']))
+    return st.one_of(single, single, single, loops)
 
 
 # ---- case function -------------------------------------------------------------------------------
@@ -214,7 +217,32 @@ def run_timex(case):
              obs={'out': out, 'types': sorted(t.types)}, key=s, evals=1)
 
 
+def run_time_loop(case):
+    """from_time must capture the VALUE: one Time object is re-used and mutated between calls; every Timex made from it must keep
+    formatting to the value it was made from, and changing one Timex must not change another"""
+    from datatypes_timex_expression import Timex
+    from datatypes_timex_expression.time import Time
+    vals = case['values']
+    clock = Time(*vals[0])
+    made = []
+    for h, m, s in vals:
+        clock.hour, clock.minute, clock.second = h, m, s
+        made.append(Timex.from_time(clock))
+    if case.get('poke') and len(made) > 1:
+        made[-1].minute = (vals[-1][1] + 7) % 60      # touching the last one must not touch the others
+    vs = []
+    got = [t.timex_value() for t in made]
+    exp = [_time_canon(h, m, s) for h, m, s in vals]
+    if case.get('poke') and len(made) > 1:
+        exp[-1] = _time_canon(vals[-1][0], (vals[-1][1] + 7) % 60, vals[-1][2])
+    if got != exp:
+        vs.append(V('FROM_TIME_ALIASING', {'values': vals, 'expected': exp, 'got': got}, bucket='CTOR:time-loop'))
+    return R(vs, nontrivial=len(vals) > 1, labels=['ctor:time-loop'], obs={'out': got}, key=['time-loop', vals, bool(case.get('poke'))])
+
+
 def run_ctor(case):
+    if case.get('kind') == 'time-loop':
+        return run_time_loop(case)
     from datatypes_timex_expression import Timex
     from datatypes_timex_expression.time import Time
     d = dt.datetime.fromisoformat(case['value'])
